@@ -84,3 +84,29 @@ Definition q_ancestors (g : rgraph) (p : Z) : list Z := reach_set (E g) p.
 Definition abs (g : graph) : rgraph :=
   {| V := map nid (nodes g);
      E := flat_map (fun n => map (fun d => (nid n, d)) (ndeps n)) (nodes g) |}.
+
+(** ---- helper definitions used by the statements in Props_C21.v (not extracted) *)
+Definition edges_of (ns : list node) : list (Z * Z) :=
+  flat_map (fun n => map (fun d => (nid n, d)) (ndeps n)) ns.
+
+(** the index maps exactly the node ids, each to its position in the node vector *)
+Definition index_inv (g : graph) : Prop :=
+  NoDup (map nid (nodes g)) /\ forall p, idx_get (index g) p = position p (map nid (nodes g)).
+
+Definition set_eq {A} (l1 l2 : list A) : Prop := forall x, In x l1 <-> In x l2.
+Definition rg_eq (g1 g2 : rgraph) : Prop := set_eq (V g1) (V g2) /\ set_eq (E g1) (E g2).
+Definition acyclic (E : list (Z * Z)) : Prop := forall a, ~ reach E a a.
+
+(** side condition of rename_path: the new path is fresh (not a node) and differs from the old one.
+    (rename_path a a erases every edge into a; rename onto an existing node makes two nodes share an id.) *)
+Definition op_ok (g : graph) (o : op) : bool :=
+  match o with
+  | ORename a b => negb (memz b (map nid (nodes g))) && negb (Z.eqb a b)
+  | _ => true
+  end.
+(** the checkable predicate over a history: every rename met while replaying it has a fresh target *)
+Fixpoint hist_ok (g : graph) (os : list op) : bool :=
+  match os with
+  | [] => true
+  | o :: r => op_ok g o && match step g o with Ok x => hist_ok (snd x) r | _ => true end
+  end.
